@@ -139,7 +139,7 @@ def unroll(prog):
 
 @st.composite
 def link_case(draw):
-    prog = draw(gen.program_st(max_files=3, const_addr=True, skip=True, base_forms=["none", "link", "dot", "link-late"]))
+    prog = draw(gen.program_st(max_files=3, decoys=False, const_addr=True, skip=True, base_forms=["none", "link", "dot", "link-late"]))
     # every file starts with an ordinary label (local-label scopes must not merge)
     for i, path in enumerate(prog["mains"]):
         body = prog["files"][path]
